@@ -7,6 +7,17 @@
 #ifndef LOGSIM_MIN
 #define LOGSIM_MIN 0
 #endif
+// op-availability probes (bin/check.py compiles sim/logsim/probe_*.cpp on their own): a kind of
+// streamed item the front end no longer accepts is compiled out here and reported as a violation
+#ifndef LS_HAVE_CALLABLE_LIT
+#define LS_HAVE_CALLABLE_LIT 1
+#endif
+#ifndef LS_HAVE_CALLABLE_FN
+#define LS_HAVE_CALLABLE_FN 1
+#endif
+#ifndef LS_HAVE_CALLABLE_OBJ
+#define LS_HAVE_CALLABLE_OBJ 1
+#endif
 
 #include <nitro/log/log.hpp>
 
@@ -33,6 +44,7 @@ Counter f_preempt("fault.sched.preempt");
 Counter f_stall("fault.sched.stall");
 Counter f_clockjump("fault.clock.jump");
 Counter p_contended("probe.lock_contended");
+Counter f_lock_timeout("fault.lock.timeout");
 } // namespace lsim
 
 namespace
@@ -45,6 +57,7 @@ Counter f_chunk("fault.stream.chunk");
 Counter f_unbuffered("fault.stream.unbuffered");
 Counter f_tinybuf("fault.stream.tinybuf");
 Counter f_bigbuf("fault.stream.buffered");
+Counter p_nothing_streamed("probe.statement_with_nothing_streamed");
 Counter p_big_record("probe.record_longer_than_4096_bytes");
 Counter p_named_overlap("probe.two_named_streams_of_one_thread_overlap");
 Counter p_multi_inflight("probe.statements_of_several_threads_in_flight");
@@ -77,6 +90,7 @@ struct Stmt
 {
     int op = -1;
     int thread = 0, sev = 0, tag = 0, form = 0;
+    bool noid = false; // nothing identifies the statement in its message (possibly nothing streamed at all)
     std::vector<Item> items;
     // observations
     bool begun = false, ended = false, threw = false;
@@ -126,6 +140,7 @@ struct G
     std::vector<std::pair<int, uint32_t>> fmt_order; // (stmt, seq) global order of format events
     uint32_t last_event_kind = 0;
     int inflight = 0;
+    char unavailable_item = 0; // an item kind that the front end refuses to compile was drawn
 } g;
 
 void flag(const char* cls, const std::string& sig, int op, const std::string& detail)
@@ -354,6 +369,14 @@ std::string item_string(const Item& it)
     return s;
 }
 
+// bytes a careless formatter or transport would mangle: NUL, newline, the record delimiters
+std::string odd_string(const Item& it)
+{
+    static const char raw[] = "a\0b\n{x}|%s\r\t\x7f";
+    std::string s(raw, sizeof raw - 1);
+    return s.substr(static_cast<size_t>(it.val) % 4);
+}
+
 // a record longer than any usual buffer / PIPE_BUF
 std::string big_string(const Item& it)
 {
@@ -406,6 +429,13 @@ std::string render(const Item& it)
     case 'f':
         o << LITERALS[it.val & 3];
         break;
+    case 'n':
+    case 'm':
+        o << "cl";
+        break;
+    case 'z':
+        o << odd_string(it);
+        break;
     case 'x':
         break;
     default:
@@ -418,6 +448,10 @@ std::vector<Item> parse_items(const std::string& s)
 {
     std::vector<Item> v;
     size_t i = 0;
+    if (!s.empty() && s[0] == '!')
+        i = 1;
+    if (i < s.size() && s[i] == ',')
+        ++i;
     while (i < s.size())
     {
         Item it;
@@ -433,7 +467,7 @@ std::vector<Item> parse_items(const std::string& s)
         it.val = n;
         if (i < s.size() && s[i] == ',')
             ++i;
-        if (strchr("sBkhiuldbpcgfx", it.kind))
+        if (strchr("sBkhiuldbpcgfxnmz", it.kind))
             v.push_back(it);
         if (v.size() >= 8)
             break;
@@ -464,6 +498,26 @@ struct Lazy
         return "L" + std::to_string(val);
     }
 };
+inline std::string stateless_callable_body()
+{
+    yield(YK_CALLABLE);
+    int me = Scheduler::self_id();
+    if (me >= 0)
+    {
+        int st = g.tctx[me].cur_stmt, item = g.tctx[me].cur_item;
+        if (st >= 0 && st < static_cast<int>(g.stmts.size()))
+        {
+            NoFault nf;
+            g.stmts[static_cast<size_t>(st)].calls.push_back(Stmt::Call{ item, item >= 0 });
+        }
+    }
+    return "cl";
+}
+inline std::string plain_function()
+{
+    return stateless_callable_body();
+}
+
 struct LazyLit
 {
     int stmt, item;
@@ -545,14 +599,38 @@ decltype(auto) with_item(int stmt, int k, const Item& it, F&& f)
         return f(static_cast<bool>(it.val & 1));
     case 'p':
         return f(Probe{ k });
+#if LS_HAVE_CALLABLE_OBJ
     case 'c':
         return f(Lazy{ stmt, k, it.val, false });
     case 'x':
         return f(Lazy{ stmt, k, it.val, true });
+#endif
+#if LS_HAVE_CALLABLE_FN
     case 'g':
         return f(std::function<std::string()>(Lazy{ stmt, k, it.val, false }));
-    default:
+#endif
+#if LS_HAVE_CALLABLE_LIT
+    case 'f':
         return f(LazyLit{ stmt, k, it.val });
+#endif
+#if LS_HAVE_CALLABLE_OBJ
+    case 'n':
+        return f([]() -> std::string { return stateless_callable_body(); }); // captureless lambda
+    case 'm':
+        return f(&plain_function); // plain function pointer
+#endif
+    case 'z':
+    {
+        std::string v;
+        {
+            NoFault nf;
+            v = odd_string(it);
+        }
+        return f(v);
+    }
+    default:
+        g.unavailable_item = it.kind;
+        return f(0);
     }
 }
 
@@ -602,7 +680,8 @@ struct Named : NamedBase
     decltype(Make<L, Sev>::go(nullptr)) s;
     Named(const char* tag, const std::string& id) : s(Make<L, Sev>::go(tag))
     {
-        s << id;
+        if (!id.empty())
+            s << id;
     }
     void put(PutCtx& pc, const Item& it, int k) override
     {
@@ -657,7 +736,10 @@ struct Ops
     template <int Sev>
     static void expr1(const char* tag, PutCtx& pc, const std::vector<Item>& items)
     {
-        chain(Make<L, Sev>::go(tag) << pc.id, pc, items, 0);
+        if (pc.id.empty())
+            chain(Make<L, Sev>::go(tag), pc, items, 0);
+        else
+            chain(Make<L, Sev>::go(tag) << pc.id, pc, items, 0);
     }
     static void expr_stmt(int sev, const char* tag, PutCtx& pc, const std::vector<Item>& items)
     {
@@ -887,6 +969,8 @@ public:
         p.knobs.emplace_back("switch16", SW[rng.below(6)]);
         p.knobs.emplace_back("pct_d", rng.range(0, 3));
         p.knobs.emplace_back("sched_seed", static_cast<int64_t>(rng.next() >> 16));
+        p.knobs.emplace_back("alloc_yield", rng.chance(1, 3));
+        p.knobs.emplace_back("lock_timeout8", rng.chance(1, 2) ? 0 : rng.range(1, 4));
         // stream knobs
         static const int BUF[] = { 0, 0, 1, 3, 7, 16, 64, 300, 4096 };
         p.knobs.emplace_back("outbuf", BUF[rng.below(9)]);
@@ -915,11 +999,18 @@ public:
         auto gen_items = [&]() {
             std::string s;
             int n = rng.range(0, 6);
+            if (rng.chance(1, 10))
+            {
+                s = "!"; // the statement does not stream its id; one in three streams nothing at all
+                if (rng.chance(1, 3))
+                    return s;
+                s += ',';
+            }
             for (int k = 0; k < n; k++)
             {
-                static const char kinds[] = "sskhiuldbppccgfx";
+                static const char kinds[] = "sskhiuldbppccgfxnmz";
                 char kd = kinds[rng.below(sizeof kinds - 1)];
-                if ((kd == 'c' || kd == 'g' || kd == 'f') && !lazy_ok)
+                if ((kd == 'c' || kd == 'g' || kd == 'f' || kd == 'n' || kd == 'm') && !lazy_ok)
                     kd = 's';
                 if (kd == 'x' && !throw_ok)
                     kd = 'c';
@@ -930,7 +1021,7 @@ public:
                     kd = 'B';
                     --big_left;
                 }
-                if (!s.empty())
+                if (!s.empty() && s.back() != ',')
                     s += ',';
                 s += kd;
                 s += std::to_string(rng.below(kd == 's' ? 40 : 1000));
@@ -1115,6 +1206,7 @@ public:
                 s.sev = static_cast<int>(op.a[s.form ? 2 : 1] % 6);
                 s.tag = static_cast<int>(op.a[s.form ? 3 : 2] % 4);
                 s.items = parse_items(op.s);
+                s.noid = !op.s.empty() && op.s[0] == '!';
                 stmt_of_op[i] = static_cast<int>(g.stmts.size());
                 g.stmts.push_back(std::move(s));
             }
@@ -1135,6 +1227,9 @@ public:
         bool replaying = !plan.choices.empty() || plan.knob("replay_default", 0);
         sch.begin_run(nthreads, &srng, replaying ? &plan.choices : nullptr, strategy,
                       static_cast<unsigned>(plan.knob("switch16", 4)), pct, prios);
+        sch.alloc_yield = plan.knob("alloc_yield", 0) != 0;
+        sch.timeout_num = static_cast<unsigned>(plan.knob("lock_timeout8", 0) % 8);
+        sch.timeout_state = sseed ^ 0x71AE;
 
         auto th_snapshot = [&] { return std::array<int, 3>{ g.th[0], g.th[1], g.th[2] }; };
         auto begin_stmt = [&](int si) {
@@ -1200,7 +1295,7 @@ public:
                         tc.cur_stmt = si;
                         begin_stmt(si);
                         sch.t[t].holds_interest = true;
-                        PutCtx pc{ si, stmt_id(s.thread, si) };
+                        PutCtx pc{ si, s.noid ? std::string() : stmt_id(s.thread, si) };
                         try
                         {
                             FaultWindow w;
@@ -1227,7 +1322,7 @@ public:
                         sch.t[t].holds_interest = true;
                         {
                             FaultWindow w;
-                            slot[sl] = le.open_named(s.sev, TAGS[s.tag], stmt_id(s.thread, si));
+                            slot[sl] = le.open_named(s.sev, TAGS[s.tag], s.noid ? std::string() : stmt_id(s.thread, si));
                         }
                         slot_stmt[sl] = si;
                         cursor[sl] = 0;
@@ -1344,6 +1439,9 @@ public:
         (void)plan;
         (void)cfg;
         NoFault nf;
+        if (g.unavailable_item)
+            return flag("C10/ill-formed", std::string("item=") + (g.unavailable_item == 'f' ? "callable-returning-const-char*" : g.unavailable_item == 'g' ? "std::function" : "function-object-or-lambda"),
+                        -1, "streaming this kind of lazily evaluated callable into a log statement no longer compiles");
         // C10 type clause (a compile-time fact the simulation only reads)
         for (int sev = 0; sev < 6; sev++)
         {
@@ -1367,11 +1465,13 @@ public:
             int nfmt = static_cast<int>(s.fmts.size());
             int ncall_items = 0;
             for (auto& it : s.items)
-                if (strchr("cgfx", it.kind))
+                if (strchr("cgfxnm", it.kind))
                     ++ncall_items;
             (void)ncall_items;
             // expected message = id + renderings of completed insertions, in order
-            std::string expect_msg = stmt_id(s.thread, static_cast<int>(si));
+            std::string expect_msg = s.noid ? std::string() : stmt_id(s.thread, static_cast<int>(si));
+            if (s.noid && s.items.empty())
+                p_nothing_streamed++;
             {
                 std::vector<int> done = s.put_done;
                 for (int k : done)
@@ -1408,7 +1508,7 @@ public:
                     return flag("C10/formatter-or-sink-called-when-rejected", sig, s.op,
                                 std::string("statement rejected by filter ") + EXPRNAME[le.expr] + " reached the formatter/sink");
                 for (auto& it : s.items)
-                    if (strchr("cgfx", it.kind))
+                    if (strchr("cgfxnm", it.kind))
                     {
                         p_callable_rejected++;
                         break;
@@ -1450,7 +1550,7 @@ public:
                         return flag("C10/callable-deferred", sig, s.op, "callable invoked outside the insertion that streamed it");
                 }
                 for (int k : s.put_done)
-                    if (strchr("cgf", s.items[static_cast<size_t>(k)].kind))
+                    if (strchr("cgfnm", s.items[static_cast<size_t>(k)].kind))
                     {
                         p_callable_emitted++;
                         if (cnt[k] != 1)
@@ -1509,7 +1609,8 @@ public:
                     expected_out.push_back(f.out);
                 if (le.sink == SK_STDERR_MT || le.sink == SK_SEQ_MT)
                     expected_err.push_back(f.out);
-                exp_thread_order[static_cast<size_t>(s.thread)].emplace_back(s.end_seq, f.out);
+                if (!s.noid)
+                    exp_thread_order[static_cast<size_t>(s.thread)].emplace_back(s.end_seq, f.out);
             }
             ended_by_thread[static_cast<size_t>(s.thread)].emplace_back(s.end_seq, static_cast<int>(si));
             fmt_by_thread[static_cast<size_t>(s.thread)].emplace_back(f.seq, static_cast<int>(si));
@@ -1583,11 +1684,15 @@ public:
                 std::vector<std::string> want;
                 for (auto& e : ends)
                     want.push_back(e.second);
-                std::string prefix = std::to_string(t) + ".";
+                // the records of thread t are recognised by their full text (ids make them unique)
+                std::set<std::string> mine(want.begin(), want.end());
                 std::vector<std::string> seen;
                 for (auto& r : recs)
-                    if (r.msg.compare(0, prefix.size(), prefix) == 0)
-                        seen.push_back("{" + std::to_string(r.sev) + "|" + r.tag + "|" + std::to_string(r.msg.size()) + "|" + r.msg + "}\n");
+                {
+                    std::string txt = "{" + std::to_string(r.sev) + "|" + r.tag + "|" + std::to_string(r.msg.size()) + "|" + r.msg + "}\n";
+                    if (mine.count(txt))
+                        seen.push_back(txt);
+                }
                 (void)pos;
                 if (seen != want)
                     return flag("C09/thread-order", sk + " dev=" + d.nm, -1, "records of thread " + std::to_string(t) + " are not in program order on the device");
@@ -1604,11 +1709,11 @@ public:
             for (size_t k = 0; k < items.size(); k++)
             {
                 Op c = op;
-                c.s.clear();
+                c.s = (!op.s.empty() && op.s[0] == '!') ? "!" : "";
                 for (size_t j = 0; j < items.size(); j++)
                     if (j != k)
                     {
-                        if (!c.s.empty())
+                        if (!c.s.empty() && c.s.back() != ',')
                             c.s += ',';
                         c.s += items[j].kind;
                         c.s += std::to_string(items[j].val);
@@ -1620,6 +1725,11 @@ public:
 };
 } // namespace
 
+static bool is_recursive(const pthread_mutex_t* m)
+{
+    return (m->__data.__kind & 127) == PTHREAD_MUTEX_RECURSIVE_NP;
+}
+
 extern "C"
 {
     int __wrap_pthread_mutex_lock(pthread_mutex_t* m)
@@ -1627,7 +1737,7 @@ extern "C"
         Scheduler& s = Scheduler::get();
         if (!s.in_sim())
             return __real_pthread_mutex_lock(m);
-        return s.lock(m);
+        return s.lock(m, is_recursive(m));
     }
     int __wrap_pthread_mutex_unlock(pthread_mutex_t* m)
     {
@@ -1641,12 +1751,98 @@ extern "C"
         Scheduler& s = Scheduler::get();
         if (!s.in_sim())
             return __real_pthread_mutex_trylock(m);
-        return s.trylock(m);
+        return s.trylock(m, is_recursive(m));
     }
+    int __wrap_pthread_mutex_timedlock(pthread_mutex_t* m, const struct timespec* ts)
+    {
+        Scheduler& s = Scheduler::get();
+        if (!s.in_sim())
+            return __real_pthread_mutex_timedlock(m, ts);
+        return s.timedlock(m, is_recursive(m));
+    }
+    int __wrap_pthread_mutex_clocklock(pthread_mutex_t* m, clockid_t c, const struct timespec* ts)
+    {
+        Scheduler& s = Scheduler::get();
+        if (!s.in_sim())
+            return __real_pthread_mutex_clocklock(m, c, ts);
+        return s.timedlock(m, is_recursive(m));
+    }
+    int __wrap_pthread_rwlock_rdlock(pthread_rwlock_t* m)
+    {
+        Scheduler& s = Scheduler::get();
+        if (!s.in_sim())
+            return __real_pthread_rwlock_rdlock(m);
+        return s.rdlock(m, false);
+    }
+    int __wrap_pthread_rwlock_wrlock(pthread_rwlock_t* m)
+    {
+        Scheduler& s = Scheduler::get();
+        if (!s.in_sim())
+            return __real_pthread_rwlock_wrlock(m);
+        return s.wrlock(m, false);
+    }
+    int __wrap_pthread_rwlock_tryrdlock(pthread_rwlock_t* m)
+    {
+        Scheduler& s = Scheduler::get();
+        if (!s.in_sim())
+            return __real_pthread_rwlock_tryrdlock(m);
+        return s.rdlock(m, true);
+    }
+    int __wrap_pthread_rwlock_trywrlock(pthread_rwlock_t* m)
+    {
+        Scheduler& s = Scheduler::get();
+        if (!s.in_sim())
+            return __real_pthread_rwlock_trywrlock(m);
+        return s.wrlock(m, true);
+    }
+    int __wrap_pthread_rwlock_unlock(pthread_rwlock_t* m)
+    {
+        Scheduler& s = Scheduler::get();
+        if (!s.in_sim())
+            return __real_pthread_rwlock_unlock(m);
+        return s.rwunlock(m);
+    }
+    int __wrap_pthread_spin_lock(pthread_spinlock_t* m)
+    {
+        Scheduler& s = Scheduler::get();
+        if (!s.in_sim())
+            return __real_pthread_spin_lock(m);
+        return s.lock(const_cast<const void*>(static_cast<volatile void*>(m)));
+    }
+    int __wrap_pthread_spin_trylock(pthread_spinlock_t* m)
+    {
+        Scheduler& s = Scheduler::get();
+        if (!s.in_sim())
+            return __real_pthread_spin_trylock(m);
+        return s.trylock(const_cast<const void*>(static_cast<volatile void*>(m)));
+    }
+    int __wrap_pthread_spin_unlock(pthread_spinlock_t* m)
+    {
+        Scheduler& s = Scheduler::get();
+        if (!s.in_sim())
+            return __real_pthread_spin_unlock(m);
+        return s.unlock(const_cast<const void*>(static_cast<volatile void*>(m)));
+    }
+    int __wrap_sched_yield(void)
+    {
+        Scheduler& s = Scheduler::get();
+        if (!s.in_sim())
+            return __real_sched_yield();
+        s.spin_yield();
+        return 0;
+    }
+}
+
+static void alloc_yield_hook()
+{
+    Scheduler& s = Scheduler::get();
+    if (s.alloc_yield && s.in_sim())
+        s.yield(YK_ALLOC);
 }
 
 int main(int argc, char** argv)
 {
+    alloc_hook() = &alloc_yield_hook;
     LogEngine e;
     return sim_main(argc, argv, e);
 }
